@@ -337,3 +337,41 @@ func VX_C05_ThriftStruct(args []int) {
 	vxAssert(w.off == len(w.data), "both frames consumed exactly")
 	vxCover("c05.thriftstruct.roundtrip")
 }
+
+func init() { vxRegister("VX_C05_ThriftRetained", VX_C05_ThriftRetained) }
+
+// VX_C05_ThriftRetained: three thrift-binary frames back to back decoded into
+// retained messages: each still holds what was packed after all were decoded.
+// args: n
+func VX_C05_ThriftRetained(args []int) {
+	vxPoolMode(1)
+	sm, sb := vxString("m", args[0]), vxBytes("b", args[0])
+	methods := []string{"/alpha/" + sm, "/beta/second_one", "/gamma/third_reply_x"}
+	bodies := [][]byte{append([]byte("first-"), sb...), []byte("2nd"), []byte("the third body")}
+	w := &vxTBuf{}
+	pw := NewBinaryProtoFunc()(w)
+	for k := range methods {
+		m := socket.NewMessage()
+		m.SetSeq(int32(10 + k))
+		m.SetMtype(erpc.TypeCall)
+		m.SetBodyCodec('s')
+		m.SetServiceMethod(methods[k])
+		m.SetBody(bodies[k])
+		m.Meta().Add("k", "v"+methods[k])
+		vxAssume(pw.Pack(m) == nil)
+	}
+	pr := NewBinaryProtoFunc()(w)
+	var got []socket.Message
+	for range methods {
+		g := vxNewGot()
+		vxAssert(pr.Unpack(g) == nil, "frame decodes")
+		got = append(got, g)
+	}
+	for k, g := range got {
+		vxAssert(g.Seq() == int32(10+k) && g.Mtype() == erpc.TypeCall && g.BodyCodec() == 's', "retained message keeps its seq/type/codec")
+		vxAssert(g.ServiceMethod() == methods[k], "retained message keeps its service method after later frames were decoded")
+		vxAssert(string(g.Meta().Peek("k")) == "v"+methods[k], "retained message keeps its metadata")
+		vxAssert(string(*(g.Body().(*[]byte))) == string(bodies[k]), "retained message keeps its body")
+	}
+	vxCover("c05.thrift.retained")
+}
